@@ -181,6 +181,18 @@ def endless(spec, kind, read, cutoff):
         "chunk-extension": Meter(head_chunked + b"1;", b"e", read),
         "trailer-lines": Meter(head_chunked + b"1\r\nx\r\n0\r\n", b"T-Filler: 0123456789\r\n", read),
         "trailer-no-crlf": Meter(head_chunked + b"0\r\nT: ", b"v", read),
+        # endless halves of the terminator each loop waits for: the bytes never complete it, so the buffer must not be
+        # measured "without its terminator"
+        "request-line-cr": Meter(b"GET / HTTP/1.1", b"\r", read),
+        "request-line-cr-only": Meter(b"", b"\r", read),
+        "request-line-lf": Meter(b"GET /", b"\n", read),
+        "proxy-line-cr": Meter(b"PROXY TCP4 1.2.3.4", b"\r", read),
+        "header-cr": Meter(b"GET / HTTP/1.1\r\nX: v", b"\r", read),
+        "header-crlfcr": Meter(b"GET / HTTP/1.1\r\nX: v", b"\r\n\r", read),
+        "header-lf": Meter(b"GET / HTTP/1.1\r\nX: v", b"\n", read),
+        "chunk-size-cr": Meter(head_chunked + b"1", b"\r", read),
+        "trailer-crlfcr": Meter(head_chunked + b"0\r\nT: v", b"\r\n\r", read),
+        "trailer-cr": Meter(head_chunked + b"0\r\nT: v", b"\r", read),
     }[kind]
 
     class Guard:
@@ -325,13 +337,15 @@ def run(ctx):
         specs.append(lp.make_spec(limit_request_line=8190, limit_request_fields=3, limit_request_field_size=8190))
         specs.append(lp.make_spec(limit_request_line=1, limit_request_fields=1, limit_request_field_size=1))
         specs.append(lp.make_spec(limit_request_line=0, limit_request_fields=5, limit_request_field_size=200))
-    kinds = ["request-line", "request-line-after-proxy-line", "proxy-line", "header-lines", "header-no-crlf", "chunk-size-digits", "chunk-extension", "trailer-lines", "trailer-no-crlf"]
+    kinds = ["request-line", "request-line-after-proxy-line", "proxy-line", "header-lines", "header-no-crlf", "chunk-size-digits", "chunk-extension", "trailer-lines", "trailer-no-crlf",
+             "request-line-cr", "request-line-cr-only", "request-line-lf", "proxy-line-cr", "header-cr", "header-crlfcr", "header-lf", "chunk-size-cr", "trailer-crlfcr", "trailer-cr"]
     for spec in specs:
         bound = bound_of(spec)
         for kind in kinds:
             if "proxy" in kind:
                 spec = dict(spec, proxy_protocol=True)
-            if doc_eff_line(spec["limit_request_line"]) == 0 and kind in ("request-line", "request-line-after-proxy-line", "proxy-line"):
+            if doc_eff_line(spec["limit_request_line"]) == 0 and kind in ("request-line", "request-line-after-proxy-line", "proxy-line",
+                                                                          "request-line-cr", "request-line-cr-only", "request-line-lf", "proxy-line-cr"):
                 continue          # limit_request_line = 0 is documented as "unlimited": no bound is claimed
             for read in (([7, 1024, 8192] if ctx.quick() else [1, 3, 7, 100, 1023, 1024, 4096, 8191, 8192]) if bound < 100000 else [8192]):
                 cutoff = 64 * bound
@@ -346,9 +360,9 @@ def run(ctx):
                         ctx.violation("endless %s: %d bytes pulled (%s) with a configured bound of %d" % (kind, pulled, how, bound),
                                       {"kind": "endless", "source": kind, "read": read, "spec": spec, "bound": bound, "pulled": pulled, "how": how})
     ctx.cov["rule"] = ("boundary triples (limit-1, limit, limit+1) for limit_request_line / limit_request_fields / limit_request_field_size over "
-                       "limit values {0,1,...,default,max,max+1}, each under whole / per-byte / random / small-block segmentations; seven endless "
+                       "limit values {0,1,...,default,max,max+1}, each under whole / per-byte / random / small-block segmentations; nineteen endless "
                        "sources (never a CRLF in request line / header field / chunk-size line / chunk extension / trailer field; header or trailer "
-                       "lines for ever) x read sizes {7,1024,8192} with a byte meter, cut off at 64x the configured bound; every case distinct and non-trivial")
+                       "lines for ever; endless halves of the awaited terminator: bare CR, bare LF, CR LF CR) x read sizes {7,1024,8192} with a byte meter, cut off at 64x the configured bound; every case distinct and non-trivial")
     ctx.sample({"family": "request-line", "limit": 20, "line_bytes": [19, 20, 21]})
     ctx.sample({"family": "endless", "meters": ctx.extra.get("meters", [])[:4]})
     ctx.log("boundary + endless cases done: %d evaluations" % ctx.cov["evaluations"])
